@@ -31,6 +31,7 @@ Set(f, i) ==
     (* the conversion is a function of the frame: the same frame again, on the same decoder, converts to the same packets *)
     /\ hist' = << [op |-> "new"], [op |-> "decode", in |-> f], [op |-> "decode", in |-> f] >>
 
+BusId(e, m) == IF m = 0 THEN e ELSE e % m                \* interface id byte of bus-status entry e
 CanP(arb, n, have, crc) == arb \o << n >> \o B(have, 40) \o crc
 
 Next ==
@@ -48,10 +49,10 @@ Next ==
        \/ mode = "lin" /\ \E n \in 0..64, short \in {0, 1, 2}, cs \in {0, 1}, pid \in {60, 255} :
              (short <= n) /\ Set(Frame(10, 3, 4, << pid, n >> \o B(n - short, 90) \o (IF short = 0 /\ cs = 1 THEN << 171 >> ELSE << >>)),
                                  [n |-> n, short |-> short, pid |-> pid, cs |-> IF short = 0 /\ cs = 1 THEN 171 ELSE 0])
-       \/ mode = "bus" /\ \E k \in 0..MaxEntries, tail \in {0, 5, 11} :
-             Set(Frame(11, 2, 0, B(12, 1) \o FlattenSeq([e \in 1..k |-> << 0, 0, e, 16 >> \o << 0, 1, e, 2 >> \o << 0, 0, 0, e >>]) \o B(tail, 3)),
-                 [k |-> k])
-       \/ mode = "bus" /\ \E n \in 1..11 : Set(Frame(11, 2, 0, B(n, 1)), [k |-> 0])
+       \/ mode = "bus" /\ \E k \in 0..MaxEntries, tail \in {0, 5, 11}, m \in {0, 1, 2} :   \* m > 0: entries repeat interface ids (mod m)
+             Set(Frame(11, 2, 0, B(12, 1) \o FlattenSeq([e \in 1..k |-> << 0, 0, BusId(e, m), 16 >> \o << 0, 1, e, 2 >> \o << 0, 0, 0, e >>]) \o B(tail, 3)),
+                 [k |-> k, m |-> m])
+       \/ mode = "bus" /\ \E n \in 1..11 : Set(Frame(11, 2, 0, B(n, 1)), [k |-> 0, m |-> 0])
        \/ mode = "cm" /\ \E n \in 1..46, sv \in {<< 1, 97, 22, 225 >>, << 255, 255, 255, 255 >>, << 0, 0, 0, 0 >>} :
              Set(Frame(12, 1, 0, SubSeq(<< 12, 1, 4, 0, 0, 24, 0, 67 >> \o sv \o << 0, 20, 7, 10, 3, 3 >> \o B(28, 9), 1, n)),
                  [n |-> n, sv |-> sv])
@@ -83,7 +84,7 @@ InvC15 == pc = "done" =>
                 /\ At(out[1].pl, 7) = info.n /\ Slice(out[1].pl, 8, info.n) = B(info.n, 90))
     /\ (mode = "bus" =>
            /\ Len(out) = info.k
-           /\ \A e \in 1..info.k : /\ out[e].ifid = << 0, 0, e, 16 >> /\ Slice(out[e].pl, 0, 4) = << 0, 0, e, 16 >>
+           /\ \A e \in 1..info.k : /\ out[e].ifid = << 0, 0, BusId(e, info.m), 16 >> /\ Slice(out[e].pl, 0, 4) = << 0, 0, BusId(e, info.m), 16 >>
                                    /\ Slice(out[e].pl, 4, 4) = << 0, 1, e, 2 >> /\ Slice(out[e].pl, 20, 4) = << 0, 0, 0, e >>)
     /\ (mode = "cm" => (Len(out) = 1 <=> info.n >= 36))
     /\ (mode = "plen" => (Len(out) > 0 => info.declared \in 1..9 /\ Len(frame) >= 28 + info.declared))
